@@ -686,6 +686,9 @@ class Class(Node):
                                 # Store result for next lookup (the package it was found in,
                                 # not the last package tried)
                                 self.imports[component_ref.name] = found_comp_ref
+                                if component_ref.child:
+                                    # Look up the rest of a dotted name inside the imported class
+                                    return c._find_class(component_ref.child[0], False)
                                 return c
                             else:
                                 raise ClassNotFoundError
